@@ -1744,7 +1744,7 @@ def bipartite_random(L, R, p, seed=None):
 
     for u in U:
         for v in V:
-            if random.random() <= p:
+            if random.random() < p:
                 G.add_edge(u, v)
     return G
 
